@@ -308,3 +308,6 @@ PROPS["C09"]["level_text"] += (" Constructor calls (Props/C09b.lean on Model/Cal
 
 PROPS["C10"]["level_text"] += (" Outside the == path (Props/C10b.lean on Model/Site): coll_update_needs_noncanon, unused_coll_update_needs_noncanon, coll_all_canon_no_update — an element that never needs "
     "regenerating (how the site engine encodes Is(..) / f-string elements) is never the reason for an update, used with `in` or never used.")
+
+PROPS["C12"]["engines"].append(("seqedit", {"quick": 800, "thorough": 20000}))
+PROPS["C12"]["rule"] += " ; plus the seqedit engine: triple-quoted string tokens that span several lines as elements next to deletions / insertions"
